@@ -18,7 +18,9 @@ Faults(s)  == SelectSeq(s.log, LAMBDA e : e[1] = "fault")
 Fired(s)   == Faults(s) # <<>>
 FHook(s)   == Faults(s)[1][2]
 FExc(s)    == Faults(s)[1][4]
-PlanIsSilent(s) == Plan(s) # <<>> /\ \A i \in 1..Len(Plan(s)) : Plan(s)[i].hook \in SilentHooks
+\* a tolerated broadcast failure (closed connection, invalid channel, timeout) is as silent as a listener's exception
+SilentEntry(p) == p.hook \in SilentHooks \/ (p.hook = "bcast" /\ p.arg \in Tolerated)
+PlanIsSilent(s) == Plan(s) # <<>> /\ \A i \in 1..Len(Plan(s)) : SilentEntry(Plan(s)[i])
 
 NoPlan == CHOOSE j \in 1..Len(Plans) : Plans[j] = <<>>
 
@@ -32,6 +34,7 @@ FPlay       == EnvPlay /\ Twin(StepPlay(T, tready))
 FResume(v)  == EnvResume(v) /\ Twin(StepResume(T, tready, v))
 FFail       == EnvFail /\ Twin(StepFail(T, tready))
 FCallSoon(k) == EnvCallSoon(k) /\ Twin(StepCallSoon(T, tready, k))
+FRpc(m)     == EnvRpc(m[1], m[2]) /\ Twin(Deliver(T, tready, "rpc", m[1], m[2]))
 FRunHandle  == RunHandle /\ (IF PlanIsSilent(S) /\ tready # <<>> THEN Twin(StepRun(T, tready)) ELSE UNCHANGED <<T, tready>>)
 
 FNext ==
@@ -41,6 +44,7 @@ FNext ==
   \/ \E v \in ResumeVals : FResume(v)
   \/ FFail
   \/ FCallSoon("ok") \/ FCallSoon("raise")
+  \/ \E m \in RpcMessages : FRpc(m)
   \/ FRunHandle
 
 FSpec == FInit /\ [][FNext]_fvars
@@ -49,7 +53,7 @@ FSpec == FInit /\ [][FNext]_fvars
 \* (a) user code / lifecycle hook after construction: EXCEPTED with exactly that exception, closed, future
 \*     raises it, stepping returned normally, nothing escaped into the loop
 C03_UserFault ==
-  (CleanFor("C03") /\ Quiescent /\ Fired(S) /\ FHook(S) \notin SilentHooks \cup PPHooks) =>
+  (CleanFor("C03") /\ Quiescent /\ Fired(S) /\ FHook(S) \notin SilentHooks \cup PPHooks /\ ~PlanIsSilent(S)) =>
      /\ S.st = "EXCEPTED" /\ S.cur.val = FExc(S)
      /\ S.closed /\ S.fut = [st |-> "exc", val |-> FExc(S)]
      /\ S.task.pc = "done"
@@ -57,7 +61,12 @@ C03_UserFault ==
 
 \* (b) a listener (or a cleanup callable) that raises changes nothing: same state as the twin, up to the fault marker
 StripFault(s) == [s EXCEPT !.log = SelectSeq(@, LAMBDA e : e[1] # "fault"), !.pl = NoPlan]
-C03_ListenerFault == PlanIsSilent(S) => (StripFault(S) = T /\ ready = tready)
+C03_ListenerFault == (PlanIsSilent(S) /\ ~S.comm) => (StripFault(S) = T /\ ready = tready)
+\* C16: a tolerated broadcast failure never disturbs the process (only the announcement itself is missing)
+NoAnnounce(s) == [s EXCEPT !.log = SelectSeq(@, LAMBDA e : e[1] \notin {"fault", "bcast"}), !.pl = NoPlan]
+C16_BroadcastFaultTolerated == (PlanIsSilent(S) /\ S.comm) => (NoAnnounce(S) = NoAnnounce(T) /\ ready = tready)
+\* ... and loses exactly the one announcement
+C16_OneAnnouncementLost == (PlanIsSilent(S) /\ S.comm) => Len(Announced(T)) - Len(Announced(S)) = Len(Faults(S))
 
 \* (c) a pause / play hook that raises: reported to the requester, process live and controllable
 PPCalls(s) == SelectSeq(s.log, LAMBDA e : e[1] = "call" /\ e[2] \in {"pause", "play"})
